@@ -114,9 +114,11 @@ PROPS = {
     },
     "C11": {
         "modules": ["Hannibal.Props.C11", "Hannibal.Props.C11Current", "Hannibal.Props.C11C", "Hannibal.Props.C11CCurrent",
-                    "Hannibal.Props.C11T", "Hannibal.Props.C11TCurrent", "Hannibal.Proofs.C11TProj"],
+                    "Hannibal.Props.C11T", "Hannibal.Props.C11TCurrent", "Hannibal.Proofs.C11TProj",
+                    "Hannibal.Props.C11Shape"],
         "theorems": ["Hannibal.C11_holds", "Hannibal.C11_current", "Hannibal.C11c_holds", "Hannibal.C11c_current",
-                     "Hannibal.C11t_holds", "Hannibal.C11t_current", "Hannibal.prun_run", "Hannibal.monC11p_ok_imp_monC11t"],
+                     "Hannibal.C11t_holds", "Hannibal.C11t_current", "Hannibal.prun_run", "Hannibal.monC11p_ok_imp_monC11t",
+                     "Hannibal.shape11_current"],
         "cases": {"quick": {"C11": 1500}, "thorough": {"C11": 20000, "x:C11": 320, "C06": 3000}},
         "assumptions": COMMON_ASSUMPTIONS + [
             "prompt-schedule clauses of monC11p (needs-less-than-t completes, needs-more is abandoned exactly at t) are "
@@ -127,6 +129,10 @@ PROPS = {
             "'the caller of an abandoned invocation gets an error' is theorem C11c_holds for every run with fresh message "
             "numbers and operation ids (wf01, checked on every real trace by monWf01; witnesses c11cReuseMsg, c11cReuseOp)",
             "d = t is excluded (select! picks randomly); virtual clock replaces real time",
+            "a timeout of zero is outside the model and the generators: futures::select! may pick the expired Delay before "
+            "the payload future is polled at all, so an invocation can be abandoned before it begins (consistent with C11's "
+            "text, but the model lets an invocation be abandoned only after it began); that the configured timeout is "
+            "used unchanged and guards task payloads only is the shape obligation shape11_current",
             "'state intact afterwards' is covered by the digest clause of C01's monitor on the same traces",
         ],
     },
